@@ -278,6 +278,48 @@ def _real_stack(specs):
     return [instantiate(s)[0] for s in specs]
 
 
+CONTAINERS = ["list", "tuple", "iterator", "generator", "deque"]
+
+
+class _Args:
+    """The stack arguments of one call: built as lists, handed over in the requested container kind (the parameters
+    are annotated Iterable[Middleware]: tuples, one-shot iterators, generators, deques are stacks too), and compared
+    afterwards: a list the caller handed over must still hold the same middleware objects in the same order."""
+
+    def __init__(self, container):
+        self.container = container or "list"
+        self.lists = {}
+        self.passed = {}
+
+    def add(self, name, specs):
+        real = _real_stack(specs)
+        self.lists[name] = (real, list(real))
+        c = self.container
+        if c == "tuple":
+            obj = tuple(real)
+        elif c == "iterator":
+            obj = iter(real)
+        elif c == "generator":
+            obj = (m for m in real)
+        elif c == "deque":
+            import collections
+
+            obj = collections.deque(real)
+        else:
+            obj = real
+        self.passed[name] = obj
+        return obj
+
+    def all(self):
+        return [m for real, _ in self.lists.values() for m in real]
+
+    def caller_list_changed(self):
+        for name, (real, before) in self.lists.items():
+            if len(real) != len(before) or any(a is not b for a, b in zip(real, before)):
+                return (("caller-stack-list-changed", f"{name}: {[type(m).__name__ for m in real]!r}", f"{[type(m).__name__ for m in before]!r} (the caller's list is the caller's)"))
+        return None
+
+
 def o_parse(inp):
     """inp: {"doc": i, "parse_stack": [specs]|None, "append_middleware": [specs]|None, "via": "string"|"file", "encoding": enc}"""
     text = get_doc(inp["doc"])
@@ -317,10 +359,13 @@ def o_parse(inp):
             return canon(_fold_ref(specs, lib))
         exp = outcome(ref)
     kw = {}
+    args = _Args(inp.get("container"))
+    if args.container != "list":
+        cls.append("stack-as-" + args.container)
     if ps is not None:
-        kw["parse_stack"] = _real_stack(ps)
+        kw["parse_stack"] = args.add("parse_stack", ps)
     if am is not None:
-        kw["append_middleware"] = _real_stack(am)
+        kw["append_middleware"] = args.add("append_middleware", am)
     if into is not None:
         kw["library"] = Splitter(get_doc(into)).split()
     if inp["via"] == "string":
@@ -336,8 +381,11 @@ def o_parse(inp):
             shutil.rmtree(d, ignore_errors=True)
     if got != exp:
         return ((f"parse:{inp['via']}:{'stack' if ps is not None else 'append'}", _short_outcome(got), _short_outcome(exp)), nontrivial, cls)
+    f = args.caller_list_changed()
+    if f:
+        return (f, nontrivial, cls)
     # dispatch of block probes
-    for mw in kw.get("parse_stack", []) + kw.get("append_middleware", []):
+    for mw in args.all():
         if isinstance(mw, BlockProbe):
             cls.append("block-probe")
             for method, kind in mw.log:
@@ -384,18 +432,21 @@ def o_write(inp):
     if via != "string" and exp[0] == "ok" and not encodable(exp[1], enc):
         return (None, False, ("not-encodable",))
     kw = {}
+    args = _Args(inp.get("container"))
+    if args.container != "list":
+        cls.append("stack-as-" + args.container)
     if via == "string":
         if us is not None:
-            kw["unparse_stack"] = _real_stack(us)
+            kw["unparse_stack"] = args.add("unparse_stack", us)
         if pm is not None:
-            kw["prepend_middleware"] = _real_stack(pm)
+            kw["prepend_middleware"] = args.add("prepend_middleware", pm)
         got = outcome(lambda: bibtexparser.write_string(lib_real, bibtex_format=fmt, **kw))
     else:
         # write_file names the same two arguments parse_stack / append_middleware
         if us is not None:
-            kw["parse_stack"] = _real_stack(us)
+            kw["parse_stack"] = args.add("parse_stack", us)
         if pm is not None:
-            kw["append_middleware"] = _real_stack(pm)
+            kw["append_middleware"] = args.add("append_middleware", pm)
         d = tempfile.mkdtemp(prefix="c20_")
         try:
             path = os.path.join(d, "out.bib")
@@ -611,6 +662,25 @@ def w_routes(acc, mw_lo, mw_hi):
                         acc.run("routes", o_routes, {"doc": doc, "raw": raw, "prefix": pi, "mw": mwi, "inplace": inplace}, True)
 
 
+def w_containers(acc):
+    """The stack parameters accept any iterable of middlewares: the same cases with tuples, one-shot iterators,
+    generators and deques instead of lists (incl. the both-given cases and the file entry points)."""
+    two = [LIB_PROBES[0], LIB_PROBES[1]]
+    for c in CONTAINERS[1:]:
+        for doc in (0, 5, 14, 16, 17):
+            for st_ in ([], [LIB_PROBES[2]], two, [SHIPPED[0], LIB_PROBES[0]], [SHIPPED[3], LIB_PROBES[1], LIB_PROBES[0]]):
+                for via in ("string", "file"):
+                    acc.run("parse", o_parse, {"doc": doc, "parse_stack": st_, "append_middleware": None, "via": via, "encoding": "utf-8", "container": c}, True)
+                    acc.run("parse", o_parse, {"doc": doc, "parse_stack": None, "append_middleware": st_, "via": via, "encoding": "utf-8", "container": c}, True)
+                for via in ("string", "path", "stringio"):
+                    acc.run("write", o_write, {"doc": doc, "unparse_stack": st_, "prepend_middleware": None, "fmt": None, "via": via, "container": c}, True)
+                    acc.run("write", o_write, {"doc": doc, "unparse_stack": None, "prepend_middleware": st_, "fmt": None, "via": via, "container": c}, True)
+            for a, b in (([], []), (two, []), ([], two), ([LIB_PROBES[0]], [LIB_PROBES[1]])):
+                acc.run("parse", o_parse, {"doc": doc, "parse_stack": a, "append_middleware": b, "via": "string", "container": c}, True)
+                acc.run("write", o_write, {"doc": doc, "unparse_stack": a, "prepend_middleware": b, "fmt": None, "via": "string", "container": c}, True)
+            acc.run("parse", o_parse, {"doc": doc, "into": 3, "parse_stack": None, "append_middleware": two, "via": "string", "container": c}, True)
+
+
 def w_isolation(acc):
     for doc in range(N_DOCS):
         for edit in ("append", "pop", "clear"):
@@ -639,10 +709,11 @@ def w_random(acc, n, seed):
                      st.dictionaries(st.sampled_from(KINDS), st.sampled_from(RETURNS), max_size=2).map(lambda r: {"probe": "block", "rets": r}))
     stack = st.one_of(st.none(), st.lists(spec, max_size=3))
     p = st.fixed_dictionaries({"doc": st.integers(0, N_DOCS - 1), "parse_stack": stack, "append_middleware": stack, "via": st.sampled_from(["string", "file"]),
-                               "encoding": st.sampled_from(["utf-8", "latin-1", "gbk", "utf-16"])})
+                               "encoding": st.sampled_from(["utf-8", "latin-1", "gbk", "utf-16"]), "container": st.sampled_from(CONTAINERS + ["list", "list"])})
     harness.run_hyp(acc, "parse", o_parse, p, n, seed)
     w = st.fixed_dictionaries({"doc": st.integers(0, N_DOCS - 1), "unparse_stack": stack, "prepend_middleware": stack, "fmt": st.one_of(st.none(), libgen.st_format()),
-                               "via": st.sampled_from(["string", "path", "file", "stringio"]), "encoding": st.sampled_from(["utf-8", "latin-1", "gbk", "utf-16"])})
+                               "via": st.sampled_from(["string", "path", "file", "stringio"]), "encoding": st.sampled_from(["utf-8", "latin-1", "gbk", "utf-16"]),
+                               "container": st.sampled_from(CONTAINERS + ["list", "list"])})
     harness.run_hyp(acc, "write", o_write, w, n, seed)
 
 
@@ -655,6 +726,7 @@ def run(chk):
     for k in range(len(KINDS)):
         tasks.append(("w_block_probes", (k,)))
     tasks.append(("w_isolation", ()))
+    tasks.append(("w_containers", ()))
     tasks.append(("w_raw_block_probes", ()))
     tasks.append(("w_into_library", ()))
     nspec = len(libgen.all_middleware_specs())
@@ -670,7 +742,8 @@ def run(chk):
         f"StringIO / file object x 4 encodings x 3 formats x 6 stack arguments; block probes: 5 block kinds x {len(RETURNS)} result kinds"
     )
     chk.rule = (
-        "cases = (document, entry point, stack arguments, encoding / target, format). Probe middlewares written in the harness: "
+        "cases = (document, entry point, stack arguments, their container kind (list / tuple / one-shot iterator / generator / deque - the "
+        "parameters are annotated Iterable[Middleware]; a list handed over must come back unchanged), encoding / target, format). Probe middlewares written in the harness: "
         "order-sensitive library probes (tag every entry, append a comment naming how many blocks they saw) and block probes "
         "returning per block kind None / [] / () / the block / lists and tuples of blocks / generator / non-block objects / falsy "
         "non-blocks / collections containing a non-block. Oracle: differential against the documented composition (split, then "
@@ -681,5 +754,5 @@ def run(chk):
         "order-sensitive members, a non-UTF-8 file with non-ASCII content, a block probe returning something other than one block, "
         "or a file target."
     )
-    chk.required_classes = ["parse:string", "parse:file", "write:string", "write:path", "write:file", "write:stringio", "both-given", ">=2-order-sensitive", "block-probe", "raw-block-probe", "into-existing-library", "routes:middleware-had-an-effect", "enc:gbk", "enc:utf-16", "enc:latin-1", "non-ascii-file", "default-stack-isolation"]
+    chk.required_classes = ["parse:string", "parse:file", "write:string", "write:path", "write:file", "write:stringio", "both-given", ">=2-order-sensitive", "block-probe", "raw-block-probe", "into-existing-library", "stack-as-tuple", "stack-as-iterator", "stack-as-generator", "stack-as-deque", "routes:middleware-had-an-effect", "enc:gbk", "enc:utf-16", "enc:latin-1", "non-ascii-file", "default-stack-isolation"]
     chk.assumptions = ["documents contain no carriage return (text-mode file reading translates line endings)", "an empty non-list collection returned by a block middleware (e.g. '') counts as 'empty'; not asserted either way"]
